@@ -134,7 +134,8 @@ uint DAC_VLS::access(uint pos, uint **seq) const {
   sequence[j] = get_field(levels, base_bits, ini);
   l_seq = 1;
 
-  while (bitget(((BitSequenceRG *)bS)->data, ini)) {
+  while ((j + 1 < (uint)nLevels) &&
+         bitget(((BitSequenceRG *)bS)->data, ini)) {
     rankini = bS->rank1(ini) - rankLevels[j];
     j++;
 
